@@ -122,6 +122,8 @@ impl<'de, R: Reader<'de>> Parser<R> {
                 &&& (want.is_none() && i + 4 <= s.len() && hex4_ok(s, i) ==> res.is_err())
                 &&& (res.is_ok() && want.is_none() ==> res.unwrap() > 0xffff)
             }),
+            // every error is made by Parser::error: positioned inside the input (C20)
+            res.is_err() ==> err_ok(res->Err_0, old(self).read.data()),
 //@after /let low_bit =/
             proof {
                 assert(((point2.wrapping_sub(0xdc00u32)) >> 10u32) == 0 <==> (0xdc00u32 <= point2 && point2 < 0xe000u32)) by (bit_vector);
@@ -143,6 +145,7 @@ impl<'de, R: Reader<'de>> Parser<R> {
                 && str_end(old(self).read.data(), old(self).read.idx() - 1) == Some(final(self).read.idx() as int),
             str_end(old(self).read.data(), old(self).read.idx() - 1).is_none() ==> res.is_err(),
             final(self).read.idx() >= old(self).read.idx(),
+            res.is_err() ==> err_ok(res->Err_0, old(self).read.data()),
     { unimplemented!() }
 
 //@extract file=src/parser.rs impl="Parser<R>" fn=parse_string_raw
@@ -165,6 +168,8 @@ impl<'de, R: Reader<'de>> Parser<R> {
             (str_end(old(self).read.data(), old(self).read.idx() as int).is_some()
                 && !has_bs(old(self).read.data(), old(self).read.idx() as int, str_end(old(self).read.data(), old(self).read.idx() as int).unwrap())) ==> res.is_ok(),
             final(self).read.idx() >= old(self).read.idx(),
+            // every error is made by Parser::error: positioned inside the input (C20)
+            res.is_err() ==> err_ok(res->Err_0, old(self).read.data()),
 //@after /let start = self.read.index\(\);/
         let ghost s = self.read.data();
         let ghost i0 = start as int;
@@ -260,6 +265,8 @@ impl<'de, R: Reader<'de>> Parser<R> {
             !old(self).utf8_clean() && !allowed ==> res.is_err(),
             !old(self).utf8_clean() && allowed ==> res.is_ok() && res.unwrap(),
             res.is_err() ==> res.unwrap_err().has_pos,
+            // every error is made by Parser::error: positioned inside the input (C20)
+            res.is_err() ==> err_ok(res->Err_0, old(self).read.data()),
 //@end
 
 //@extract file=src/parser.rs impl="Parser<R>" fn=parse_str
@@ -285,6 +292,8 @@ impl<'de, R: Reader<'de>> Parser<R> {
             // C02, UTF-8 half: in the default configuration an accepted literal (and everything consumed before it) holds
             // no invalid UTF-8
             (res.is_ok() && !old(self).cfg.utf8_lossy) ==> final(self).utf8_clean(),
+            // every error is made by Parser::error: positioned inside the input (C20)
+            res.is_err() ==> err_ok(res->Err_0, old(self).read.data()),
 //@end
 }
 
@@ -298,7 +307,7 @@ pub fn lossy_string(b: &[u8]) -> (r: String) { unimplemented!() }
 #[verifier::external_body]
 pub fn string_into_bytes(s: String) -> (r: Vec<u8>) { unimplemented!() }
 #[verifier::external_body]
-pub fn invalid_utf8_err(json: &[u8], index: usize) -> (e: Error) ensures e.has_pos, { unimplemented!() }
+pub fn invalid_utf8_err(json: &[u8], index: usize) -> (e: Error) requires index <= json@.len(), ensures e.has_pos, e.off == index, { unimplemented!() }
 
 } // verus!
 fn main() {}
